@@ -9,6 +9,7 @@ All theorems hold for every glob matcher `E.glob`, in particular for the modelle
 import InToto.Proofs.Rules
 import InToto.Proofs.RulesMore
 import InToto.Proofs.RulesItems
+import InToto.Proofs.RulesAllNames
 
 namespace InToto.C03
 open InToto InToto.Rules InToto.RulesSpec InToto.RulesProofs InToto.RulesItems
@@ -170,5 +171,42 @@ theorem item_order_irrelevant (glob : Str → Str → Bool) (items₁ items₂ :
     (hp : items₁.Perm items₂) :
     (verifyArtifacts glob items₁ ctx).isOk = (verifyArtifacts glob items₂ ctx).isOk :=
   verifyArtifacts_perm glob items₁ items₂ ctx h hp
+
+/-! ### ALL artifact names (no `CleanCtx` hypothesis; findings F20, F21 repaired)
+
+`VerifyArtifacts` cleans the two artifact maps of an item in place before it computes the sets of
+created / deleted / modified artifacts, and `verifyMatchRule` cleans the source and the destination
+map before it reads them (`Rules.cleanArts`: every entry moves to the clean form of its name, in
+sorted order of the recorded names).  So on ARBITRARY links the verdict is the verdict on the links
+with every artifact map cleaned up front, and on those the specification applies. -/
+
+/-- `path.Clean` is idempotent (model of Go's `path.Clean`, tied to the code by op `clean`) -/
+theorem clean_is_idempotent (p : Str) : Path.clean (Path.clean p) = Path.clean p :=
+  PathClean.clean_idem p
+
+/-- the cleaned links have clean names only -/
+theorem cleaned_links_are_clean (ctx : Ctx) : CleanCtx (RulesAllNames.cleanCtx ctx) :=
+  RulesAllNames.cleanCtx_clean ctx
+
+/-- C03 on all names: the verdict on arbitrary links = the verdict on the cleaned links -/
+theorem verdict_is_verdict_on_cleaned_links (glob : Str → Str → Bool) (items : List Item) (ctx : Ctx) :
+    (verifyArtifacts glob items ctx).isOk = (verifyArtifacts glob items (RulesAllNames.cleanCtx ctx)).isOk :=
+  RulesAllNames.verifyArtifacts_all_names glob items ctx
+
+/-- … the two runs also fail with the same error class, and a successful run leaves links behind
+    that clean to the same links -/
+theorem outcome_is_outcome_on_cleaned_links (glob : Str → Str → Bool) (items : List Item) (ctx : Ctx) :
+    (∀ ctx1, verifyArtifacts glob items ctx = .ok ctx1 →
+      verifyArtifacts glob items (RulesAllNames.cleanCtx ctx) = .ok (RulesAllNames.cleanCtx ctx) ∧
+      RulesAllNames.cleanCtx ctx1 = RulesAllNames.cleanCtx ctx) ∧
+    (∀ e, verifyArtifacts glob items ctx = .err e ↔ verifyArtifacts glob items (RulesAllNames.cleanCtx ctx) = .err e) :=
+  RulesAllNames.verifyArtifacts_all_names_outcome glob items ctx
+
+/-- C03, full strength, ALL names: `VerifyArtifacts` accepts exactly when every item meets the
+    specification on the cleaned links (`ItemOK`: it has a link, both rule lists parse, and the
+    spec's queue algorithm accepts materials and products) -/
+theorem all_items_verified_iff_spec_all_names (glob : Str → Str → Bool) (items : List Item) (ctx : Ctx) :
+    (verifyArtifacts glob items ctx).isOk = true ↔ ∀ item ∈ items, ItemOK glob (RulesAllNames.cleanCtx ctx) item :=
+  RulesAllNames.all_items_verified_iff_spec_all_names glob items ctx
 
 end InToto.C03
